@@ -8,7 +8,8 @@
 //   - Javadoc-style `/** TODO`, and a TODO/FIXME word at the start of a continuation line of a block comment;
 //   - a marker followed by anything but end-of-text, a blank, ':' or '(name)' (`TODOS`, `TODO-x`, `TODO_1`), a blank
 //     between the marker and ':' or '(', `::`, `()`, a message that starts with '(' or ':';
-//   - doubled comment markers (`////`, `##`, `//*`, `///`) in front of a marker;
+//   - doubled comment markers of the same kind (`////`, `##`, `//*`, `///`) in front of a marker (a character that opens
+//     ANOTHER kind of comment, `//# FIXME`, `#/ TODO`, `/*# todo */`, `/*/ fixme */`, is generated: plain "mention later");
 //   - single-quoted strings of more than one character, unterminated string literals, backslashes in back-tick literals,
 //     `//` as an operator, form feeds, U+2028/2029, CR-only line ends;
 //   - anything after an unterminated `/*` other than plain words up to the end of the file.
@@ -253,7 +254,22 @@ func (g *gen) comment(kind string, allowMulti bool) {
 		m := r.Pick(markers)
 		tail := r.Pick([]string{"", ":", ": " + strings.Join(g.message(), " "), " " + strings.Join(g.message(), " "), "(" + r.Pick(names) + "): x"})
 		lead := r.Pick([]string{"", " ", "  "})
-		switch v := r.Intn(10); {
+		switch v := r.Intn(12); {
+		case v >= 10:
+			// the text begins, directly after the comment marker, with a character that opens ANOTHER kind of comment
+			// (a commented-out comment): `//# FIXME`, `#/ TODO`, `#* TODO`, `#// todo`, `/*# todo */`, `/*/ fixme */`.
+			// Doubled markers of the same kind (`////`, `##`, `//*`, `/**`) stay excluded.
+			var pre string
+			switch kind {
+			case "line":
+				pre = "#"
+			case "hash":
+				pre = r.Pick([]string{"/", "*", "//", "/*"})
+			default:
+				pre = r.Pick([]string{"#", "/"})
+			}
+			text = pre + r.Pick([]string{"", "", " ", "\t"}) + m + tail
+			what = "later/" + kind + "/opener-char"
 		case v < 4:
 			text = lead + joinBlanks(r, append([]string{r.Pick(firstWords)}, g.words(r.Range(0, 2))...)) + " " + m + tail
 			what = "later/" + kind + "/word"
@@ -294,7 +310,12 @@ func (g *gen) todoComment(kind string, allowMulti bool) {
 	p.Marker = r.Pick(markers)
 	var after string
 	var msg []string
-	switch r.Intn(10) {
+	switch r.Intn(11) {
+	case 10:
+		// crash-only shape: the text after the marker (and optional colon / blanks) opens a parenthesis that is never
+		// closed inside this comment. What is reported for it is free (the statement only fixes '(name)'), a crash is not.
+		g.unclosedParen(kind, p, lead)
+		return
 	case 0:
 		p.Form = "marker"
 	case 1:
@@ -351,6 +372,24 @@ func (g *gen) todoComment(kind string, allowMulti bool) {
 		tight = "/tight"
 	}
 	g.f.shape = append(g.f.shape, "todo/"+kind+"/"+p.Form+multi+tight+"/"+strings.ToUpper(p.Marker))
+	g.emit(p.Src)
+}
+
+// words without ')' for the text behind an unclosed '('
+var noCloseWords = []string{"rework", "the", "whole", "half", "open", "bob", "see", "#12", "a(b", "(x", "42", "café", "//", "x:y", "m"}
+
+func (g *gen) unclosedParen(kind string, p Planted, lead string) {
+	r := g.r
+	p.Form = "unclosed-paren"
+	p.Optional = true
+	var ws []string
+	for k := r.Range(0, 4); k > 0; k-- {
+		ws = append(ws, r.Pick(noCloseWords))
+	}
+	text := lead + p.Marker + r.Pick([]string{"", "", " ", ":", ": ", "\t"}) + "(" + joinBlanks(r, ws) + r.Pick([]string{"", "", " "})
+	p.Src = wrap(kind, text)
+	g.f.Planted = append(g.f.Planted, p)
+	g.f.shape = append(g.f.shape, "crash-only/"+kind+"/unclosed-paren")
 	g.emit(p.Src)
 }
 
